@@ -15,7 +15,7 @@
 
   -- [V] drawn extent of a line (glyph bitmaps may leave columns of the line box empty when no background colour is set): the alignment theorems are about the line box `measure_string` reports and `draw_string` is given; the oracle checks the drawn extent with a background colour
   -- [V] `i32` overflow of positions (`y += line_height`, `x + width`) is not modelled (C08): carried by correspondence + oracle only
-  -- [V] observation outside the quantifier (custom font with spacing > 0, neither text nor background colour): `draw_string` returns one trailing spacing more than `measure_string` (`draw_next_transparent_with_spacing`, witness in corpus/C15.ops): checked on the real code by the oracle, not a claim of the property
+  -- [V] observation outside the quantifier (custom font with spacing > 0, neither text nor background colour): `draw_string` returns one trailing spacing more than `measure_string` (`draw_next_transparent_with_spacing`, witness in corpus/C15.ops): the model follows the code; the oracle accepts both this value and the one `measure_string` predicts; not a claim of the property
 -/
 import EG.Lemmas.TextLayoutChain
 import EG.Lemmas.TextLayoutCrlf
@@ -89,7 +89,13 @@ theorem text_draw_next_eq_measure (f : MonoFont) (atlas : Pt → Bool) (t : Text
     · exact Or.inr (Or.inl h)
     · exact Or.inr (Or.inr (Or.inl h)))
 
-/-! ### 2. Chaining (fonts without spacing) -/
+/-! ### 2. Chaining (fonts without spacing)
+
+The property's claim — the PICTURE of `s1` followed by `s2` at the returned position equals the picture of
+`s1 ++ s2` — is proved as equality of pixel maps in `EG/Props/C15/ChainPicture.lean`
+(`ChainPicture.chaining_picture`, `chaining_picture_default`, `chaining_picture_maps` for `draw_string`;
+`chaining_text_picture` for `Text::draw`, one left-aligned line). The theorems of this section are its
+ingredients at the level of returned positions and call lists; none of them alone is the picture claim. -/
 
 /-- Returned positions chain: `draw_string(s1 ++ s2, p)` returns what drawing `s2` at the position
 returned for `s1` returns. -/
@@ -112,7 +118,9 @@ theorem chaining_cells (f : MonoFont) (h : f.spacing = 0) (atlas : Pt → Bool) 
   simp only [drawStringBinary_closed, binCalls_append f h]
 
 /-- The decoration rectangle (underline or strikethrough) over the whole width covers exactly the
-pixels of the rectangle over `s1` and the rectangle over `s2` started at the returned position. -/
+pixels of the rectangle over `s1` and the rectangle over `s2` started at the returned position.
+(A fact about `decoRect` alone; `ChainPicture.chaining_decoration_picture` turns it into pixel maps and
+`ChainPicture.chaining_picture` applies it to the decorations `drawString` really draws.) -/
 theorem chaining_decorations (off hgt : Nat) (p : Pt) (w1 w2 : Nat) (q : Pt) :
     (decoRect off hgt p (w1 + w2)).contains q = true ↔
       (decoRect off hgt p w1).contains q = true ∨ (decoRect off hgt ⟨p.x + (w1 : Int), p.y⟩ w2).contains q = true :=
